@@ -58,6 +58,10 @@ func c03(c *Ctx) {
 	r.Rule("R03.P", "padding before IGE: 0 <= pad <= 15 and (len+pad) % 16 == 0 for every residue", 1)
 	r.Rule("R03.E", "isPacketEncrypted tests the 8-byte position the unencrypted writer fills with zero", 1)
 	tr := an.NewTracer()
+	r.Rule("R03.K", "key schedule: the aes_key / aes_iv expressions extracted from generateAESIGE (both directions) are the MTProto 1.0 formulas — every window of auth_key, every SHA-1 input order, every digest slice", 4)
+	if c.verifySummaries("R03.K") {
+		c.keySchedule("R03.K")
+	}
 
 	// ---- R03.I writer ---------------------------------------------------------------------------
 	if f := c.fn("R03.I", load.MsgPkg, "", "serializePacket"); f != nil {
